@@ -924,9 +924,9 @@ def run(ctx):
         compare_tables(ctx, tables)
 
         # ---- 2. code -> spec: record life cycles, validate them in the background
-        ntr = 300 if quick else 4000
+        ntr = 300 if quick else 2500
         recipes = [gen_recipe(rng, tables) for _ in range(ntr)]
-        for big, cnt in ((100, 2), (257, 1), (1000, 1)) if quick else ((100, 20), (257, 10), (1000, 5)):
+        for big, cnt in ((100, 2), (257, 1), (1000, 1)) if quick else ((100, 12), (257, 6), (1000, 3)):
             recipes += [gen_recipe(rng, tables, big=big) for _ in range(cnt)]
         traces = [execute(rc, tables) for rc in recipes]
         jobs["traces"] = Bg(lambda: validate(ctx, traces))
@@ -935,10 +935,10 @@ def run(ctx):
         stats = {"per_mode": {}, "per_class": {}, "n": 0, "shown": set()}
         r_small = jobs["small"].join()
         must_hold(r_small)
-        replay_cases(ctx, r_small, tables, 2 if quick else 3, stats)
+        replay_cases(ctx, r_small, tables, 2, stats)
         r_pdiff = jobs["pdiff"].join()
         must_hold(r_pdiff)
-        replay_cases(ctx, r_pdiff, tables, 2, stats)
+        replay_cases(ctx, r_pdiff, tables, 1, stats)
 
         rneg = {}
         for name in todo:
@@ -1007,8 +1007,8 @@ def replay_cases(ctx, r, tables, nconc, stats):
     rng = ctx.rng
     cases = sorted(r.printed.get("CASE", []), key=lambda c: json.dumps(c, sort_keys=True))
     quick = ctx.tier == "quick"
-    every = 80 if quick else 15
-    thousand = 2 if quick else 12
+    every = 80 if quick else 40
+    thousand = 2 if quick else 6
     for idx, case in enumerate(cases):
         if len(ctx.violations) >= 3:      # leave room for violations found by trace validation
             break
@@ -1017,7 +1017,7 @@ def replay_cases(ctx, r, tables, nconc, stats):
         key = case["c"] + ("" if case["b"] == "-" else "/" + case["b"])
         stats["per_class"][key] = stats["per_class"].get(key, 0) + 1
         # quick tier: one concretization per plain case (canonical / random alternately), two per history
-        cs = range(nconc) if (case.get("H") or not quick) else [idx % 2]
+        cs = range(nconc) if nconc > 1 and (case.get("H") or not quick) else [idx % 2]
         for c in cs:
             conc = concretize(rng, case, canonical=(c == 0))
             variant = make_variant(rng, c)
